@@ -25,6 +25,23 @@ CHECKS = {
             "non-dyadic arithmetic identities on real runs are checked as order properties only."
         ),
     ),
+    "C08": dict(
+        engine="exact-replay",
+        technique="TLC exact evaluation of GaussExact.tla (joint-moment definitions + algebraic laws as invariants) and replay of every instance into the three real factorisations",
+        text=(
+            "GaussExact.tla defines marginalisation, reversal, composition, application, preconditioner removal, "
+            "rescaling, log-density and whitened residuals by joint moments over the rationals; TLC evaluates the "
+            "definitions exactly on each integer instance (states = instances), checks Chapman-Kolmogorov, total "
+            "variance, symmetry, rescaling and the dense-embedding law of the isotropic/block-diagonal models as "
+            "invariants, and exports the expected moments. Every instance is replayed into the real Dense/Isotropic/"
+            "BlockDiag classes (about 40 operations, unbatched and vmapped) and compared at 1e-9."
+        ),
+        design_ref="DESIGN.md 3.3, 4 (C08)",
+        note=(
+            "Trusted: TLC's exact integer arithmetic (overflow raises), the 1e-9 comparison. Bounded: |entries| <= 3, n <= 4, "
+            "d <= 3, scalings 2^-8..2^8; instances overflowing 32 bits are dropped and counted. Ill-conditioning beyond that is rounding, not algebra."
+        ),
+    ),
 }
 
 NOT_APPLICABLE = {
@@ -36,6 +53,7 @@ NOT_YET = "not claimed yet: the specification/conformance check for this propert
 
 ENGINES = [
     dict(name="tlc", path="harness/tlc.py", kind_free_text="TLC runner: generated MC modules, counters, PrintT/ToJson behaviour export"),
+    dict(name="exact-replay", path="harness/exact.py", kind_free_text="TLC as exact rational evaluator of the L2 specifications; instances replayed into the real numerical classes"),
     dict(name="scripted-loop", path="harness/l0.py", kind_free_text="AdaptiveLoop.tla behaviours replayed through the real adaptive loop with a scripted solver"),
 ]
 
